@@ -36,7 +36,7 @@ def bounds(tier):
 def required_cells(tier):
     return ["alias:compiled-through-file-link", "alias:-I-through-dir-link", "alias:dot-segments-file", "alias:dot-segments-I",
             "alias:include-through-file-link", "alias:once-header-under-two-names", "alias:forced-include",
-            "link:unused-to-member", "link:to-outside", "same-file-from-2-commands", "one-tree-per-inode", "cli:tree-links"]
+            "link:unused-to-member", "link:to-outside", "link:to-excluded-member", "names-differing-in-case", "same-file-from-2-commands", "one-tree-per-inode", "cli:tree-links"]
 
 
 def dots(rng, rel):
@@ -116,6 +116,16 @@ def decorate(rng, case):
         outside_files["@out/far.h"] = "int far;\n"
         links["src/outside_link.h"] = "@out/far.h"
         cells.add("link:to-outside")
+    # an excluded header that has a second name (file symlink) which the pattern does not match: the physical file is
+    # excluded, so neither name is a member
+    hdrs = [r for r in members if r.endswith(".h") and os.path.basename(r) != "pre.h"]
+    if hdrs and rng.random() < 0.4:
+        t = rng.choice(hdrs)
+        ac["exclude"] = ["/" + t]
+        links["src/xl_" + os.path.basename(t)] = os.path.relpath(t, "src")
+        cells.add("link:to-excluded-member")
+    if any(r.endswith("/CaseP.h") for r in case["files"]):
+        cells.add("names-differing-in-case")
     files = [os.path.normpath(t["file"]) for t in case["tus"]]
     if len(set(files)) < len(files):
         cells.add("same-file-from-2-commands")
@@ -178,8 +188,9 @@ def check_case(ctx, case, base, cls, do_cli=False):
         return
     problems = []
     try:
-        st_t, cb_t = cbi.run_find(troot, forest.cbi_configuration(case, tb))
-        st_a, cb_a = cbi.run_find(aroot, forest.cbi_configuration(ac, ab))
+        excl = ac.get("exclude") or []
+        st_t, cb_t = cbi.run_find(troot, forest.cbi_configuration(case, tb), exclude_patterns=excl)
+        st_a, cb_a = cbi.run_find(aroot, forest.cbi_configuration(ac, ab), exclude_patterns=excl)
         acc.hook("find", 2)
         at, dup_t = by_inode(st_t, os.path.realpath(troot))
         aa, dup_a = by_inode(st_a, os.path.realpath(aroot))
@@ -194,7 +205,7 @@ def check_case(ctx, case, base, cls, do_cli=False):
                     obs_t.setdefault(p, {}).setdefault(rel, set()).add(ln)
         d = forest.diff({p: {f: l for f, l in v.items()} for p, v in expected.items()},
                         {p: {f: l for f, l in v.items() if not f.startswith("..")} for p, v in obs_t.items()})
-        d = [x for x in d if not x["file"].startswith("@out")]
+        d = [x for x in d if not x["file"].startswith("@out") and "/" + x["file"] not in excl]
         if d:
             problems.append({"kind": "twin-vs-gcc", "diff": d[:5]})
         # aliased vs twin, per physical file (links add no physical files except the outside one)
@@ -215,10 +226,15 @@ def check_case(ctx, case, base, cls, do_cli=False):
         listed = {os.path.relpath(p, os.path.realpath(aroot)) for p in cb_a}
         if "src/outside_link.h" in listed:
             problems.append({"kind": "link-to-outside-enumerated"})
+        for x in excl:
+            xl = "src/xl_" + os.path.basename(x)
+            for name in (x[1:], xl):
+                if name in listed or os.path.join(aroot, name) in cb_a:
+                    problems.append({"kind": "name-of-an-excluded-physical-file-is-a-member", "name": name, "exclude": excl})
         if do_cli and not problems:
             from cbimon.props import c08
             toml = c08.write_dbs(ac, ab)
-            rc, out, err = cli.run("cbi-tree", [toml], aroot)
+            rc, out, err = cli.run("cbi-tree", [a_ for x in excl for a_ in ("-x", x)] + [toml], aroot)
             legend, rows = cli.parse_tree(out)
             cells.add("cli:tree-links")
             if rc != 0:
@@ -251,7 +267,7 @@ def run_shard(ctx):
     base = os.path.join(ctx.scratch, "c15")
     rng = ctx.rng("cases")
     for i in range(b["cases"]):
-        case = forest.gen(rng, n_tus=rng.randint(1, 4), findable=True)
+        case = forest.gen(rng, n_tus=rng.randint(1, 4), findable=True, casepair=(i % 3 == 0))
         for tu in case["tus"]:
             tu["search"] = [["I", d] for _, d in tu["search"]]
         if rng.random() < 0.3 and len(case["tus"]) >= 2:
